@@ -488,6 +488,10 @@ def flat(stmts: List[ast.stmt]) -> List[ast.stmt]:
             g = ast.copy_location(ast.If(test=s.test, body=s.body, orelse=[]), s)
             out.append(g)
             out.extend(flat(s.orelse))
+        elif isinstance(s, ast.If) and s.orelse and _terminates(s.orelse):
+            g = ast.copy_location(ast.If(test=ast.copy_location(ast.UnaryOp(op=ast.Not(), operand=s.test), s.test), body=s.orelse, orelse=[]), s)
+            out.append(g)
+            out.extend(flat(s.body))
         else:
             out.append(s)
     return out
